@@ -4,6 +4,7 @@ import (
 	"encoding/json"
 	"fmt"
 	"strings"
+	"time"
 	"unicode/utf8"
 
 	"verifsim/internal/comp"
@@ -18,6 +19,18 @@ import (
 // which the evidence reports as max_observed_over_budget).
 func faultLimits(n int) (comp.Limits, int) {
 	return comp.Limits{Ticks: tickFactor * int64(n+256), Depth: 16*n + 1024}, 0
+}
+
+// limitsFor: the only construct of the language that legitimately does more than a
+// constant amount of work per input byte is the movement multiplier `step * N`
+// (N <= 9999, README "movement Statement"). An input without a '*' gets a tenth of the
+// tick budget, which makes a hang ten times cheaper to detect.
+func limitsFor(input string) comp.Limits {
+	lim, _ := faultLimits(len(input))
+	if !strings.Contains(input, "*") {
+		lim.Ticks /= 10
+	}
+	return lim
 }
 
 // maxOutput: `step * 9999` legitimately turns 6 input bytes into 9999 output lines, each
@@ -47,7 +60,7 @@ type FaultReplay struct {
 
 func compileOn(input string, o *comp.Options, d *Disk) comp.Result {
 	Mount(d)
-	lim, _ := faultLimits(len(input))
+	lim := limitsFor(input)
 	res := comp.Compile(input, o, lim, nil)
 	Mount(nil)
 	return res
@@ -138,7 +151,7 @@ func (fr *faultRun) observe(kind, desc, input string, o *comp.Options, d *Disk, 
 	if eff || (d != nil && d.Fired > 0) {
 		fr.dist = append(fr.dist, rng.H(rng.HashStr(input), rng.HashStr(optKey(o, d))))
 	}
-	lim, _ := faultLimits(len(input))
+	lim := limitsFor(input)
 	maxOut := maxOutput(input, o)
 	if r := float64(res.Ticks) / float64(lim.Ticks); r > st.MaxTicksRatio {
 		st.MaxTicksRatio = r
@@ -205,6 +218,9 @@ func faultEval(rp *FaultReplay) (string, string) {
 		if or, d := unaryOracle(in2, rp.Options2, &res2); or != "" {
 			return or, d
 		}
+		if res.Budget != "" || res2.Budget != "" || res.Panic != "" || res2.Panic != "" {
+			return "", ""
+		}
 		switch rp.Kind {
 		case "lint-superset":
 			if res.HasOut && res2.Err != nil {
@@ -253,12 +269,16 @@ func faultMinimize(oracle string, rp *FaultReplay) *FaultReplay {
 		if len(best.Input) > 1500 {
 			budget = 12
 		}
-		tickFactor = 1000
-		defer func() { tickFactor = 20000 }()
 	}
+	// Minimisation runs under a tenth of the tick budget (a candidate that trips it is
+	// simply not accepted unless the oracle being minimised is the hang itself) and under a
+	// wall-clock cap: it is an effort bound on making the replay smaller, never part of a verdict.
+	tickFactor = 2000
+	defer func() { tickFactor = 20000 }()
+	deadline := time.Now().Add(20 * time.Second)
 	in := best.Input
-	for chunk := len(in) / 2; chunk >= 1 && budget > 0; chunk /= 2 {
-		for i := 0; i+chunk <= len(in) && budget > 0; {
+	for chunk := len(in) / 2; chunk >= 1 && budget > 0 && time.Now().Before(deadline); chunk /= 2 {
+		for i := 0; i+chunk <= len(in) && budget > 0 && time.Now().Before(deadline); {
 			cand := in[:i] + in[i+chunk:]
 			budget--
 			if fails(cand) {
@@ -390,7 +410,7 @@ func (fr *faultRun) exec() {
 	if orc, d := unaryOracle(input0, &lo, &lint0); orc != "" {
 		fr.report(orc, d, &FaultReplay{Kind: "baseline-lint", Desc: "unfaulted generated program, lint parser", Input: input0, Options: lo, Disk: healthyDisk(f), Result: &lint0})
 	}
-	if base.HasOut && lint0.Err != nil {
+	if base.HasOut && lint0.Err != nil && lint0.Panic == "" && lint0.Budget == "" {
 		fr.report("lint-superset", fmt.Sprintf("normal mode accepts, lint mode fails with %q", lint0.Err.Msg),
 			&FaultReplay{Kind: "lint-superset", Desc: "same input, normal vs lint", Input: input0, Options: o, Disk: healthyDisk(f), Options2: &lo, Disk2: healthyDisk(f)})
 	}
@@ -403,10 +423,10 @@ func (fr *faultRun) exec() {
 	lk := lint0.Key()
 	// S1: EOF at EVERY token boundary (enumerated)
 	// (enumerated for programs of up to 400 tokens - the bound stated in DESIGN.md section 6;
-	// a longer program gets 400 evenly spread boundaries, otherwise the cost is quadratic)
+	// a longer program gets 150 evenly spread boundaries, otherwise the cost is quadratic)
 	stride := 1
 	if len(toks) > 400 {
-		stride = (len(toks) + 399) / 400
+		stride = (len(toks) + 149) / 150
 	}
 	for k := 0; k < len(toks); k += stride {
 		in := filegen.Join(toks[:k], 1, nil)
@@ -677,7 +697,7 @@ func (fr *faultRun) exec() {
 			elo.Lint = true
 			d2 := cloneDisk(d)
 			lres := fr.observe(kind, desc+" (lint)", input0, &elo, d2, lk)
-			if lres.Key() != lk && lres.Panic == "" && lres.Budget == "" {
+			if lres.Key() != lk && lres.Panic == "" && lres.Budget == "" && lint0.Panic == "" && lint0.Budget == "" && !fr.hung {
 				fr.report("lint-env", fmt.Sprintf("lint result depends on the environment (%s): %.200q vs %.200q", desc, lk, lres.Key()),
 					&FaultReplay{Kind: "lint-env", Desc: desc, Input: input0, Options: lo, Disk: healthyDisk(f), Options2: &elo, Disk2: d})
 			}
